@@ -17,7 +17,10 @@ Import ListNotations.
 
 Inductive case :=
 | MergeCase (target patch observed : json)
-| ConfigCase (cls : patch_class) (target patch : json) (accepted : bool) (candidate : option json).
+| ConfigCase (cls : patch_class) (target patch : json) (accepted : bool) (candidate : option json)
+(* document-level `null` patch through mergeConfigPatch; zero = canonicalConfigJSON of the
+   configuration with no member set (computed by the harness without mergeConfigPatch) *)
+| NullPatchCase (target zero : json) (accepted : bool) (candidate : option json).
 
 (* observed document = RFC 7396 result (property predicate) and = model of the code *)
 Definition judge_doc (target patch observed : json) : verdict :=
@@ -35,4 +38,16 @@ Definition judge (c : case) : verdict :=
            | None => VOk
            end
       else VViolation
+  | NullPatchCase t zero accepted cand =>
+      (* accepted: the candidate must be what the RFC result (null, no members) decodes to and
+         in particular not the unmodified target; rejected: permitted by the property ("accepted
+         only if") but not what the code does today *)
+      if accepted
+      then match cand with
+           | Some c => if null_patch_candidate_ok (spec_apply t JNull) zero c
+                       then (if is_null (go_apply t JNull) then VOk else VMismatch)
+                       else VViolation
+           | None => VViolation
+           end
+      else VMismatch
   end.
